@@ -358,6 +358,13 @@ func c35Run(cs c35Case) (string, []lib.Problem) {
 			var parts []string
 			for i, v := range vals {
 				c := c35Canon(v)
+				if i < len(stored) && strings.HasPrefix(stored[i].Kind, "uint") && strings.HasPrefix(c, "s:") {
+					// an unsigned number kept as its exact decimal text (SQLite
+					// integers are signed 64-bit) still denotes the same number
+					if _, err := strconv.ParseUint(c[2:], 10, 64); err == nil {
+						c = c[2:]
+					}
+				}
 				if i < len(stored) && stored[i].Tag == "location" {
 					id, isInt := v.(int64)
 					if s, ok := locByID[id]; isInt && ok {
